@@ -97,6 +97,33 @@ theorem normalizeDistribution_post {isZero : ℝ → Bool} {F P N D : Nat} {b : 
   · rw [mapCoordsN_eq h]
   · rw [mapCoordsN_eq h]
 
+/-- **Distribution normaliser, on the body, axes (0, 1, 2)** (one mean and deviation per coordinate, over all frames, people AND points): for every coordinate `d`
+    whose all-points column has a mean `μ` and a non-zero deviation `σ`, the column of the result has mean 0 and deviation 1; confidences and missing pattern unchanged. -/
+theorem normalizeDistribution_post_all {isZero : ℝ → Bool} {F P N D : Nat} {b : PBody ℝ} (h : BInv isZero F P N D b) (hF : 0 < F) (hP : 0 < P) (hN : 0 < N)
+    (d : Nat) (hd : d < D) (μ σ : ℝ) (hμ : meanOpt RS (columnVals b true 0 d) = some μ) (hσ : stdOpt RS (columnVals b true 0 d) = some σ) (h0 : σ ≠ 0) :
+    meanOpt RS (columnVals (normalizeDistribution RS isZero true b).1 true 0 d) = some 0 ∧
+    stdOpt RS (columnVals (normalizeDistribution RS isZero true b).1 true 0 d) = some 1 ∧
+    (normalizeDistribution RS isZero true b).1.conf = b.conf ∧ (normalizeDistribution RS isZero true b).1.missing = b.missing := by
+  have hD : numDimsBody b = D := numDims_of_rect h.data hF hP hN
+  have hNp : numPoints b = N := numPoints_of_rect h.conf hF hP
+  -- for axes (0, 1, 2) the column does not depend on the point index
+  have hcolN : ∀ n, columnVals b true n d = columnVals b true 0 d := fun n => by unfold columnVals; rfl
+  let g : Nat → Nat → ℝ → ℝ := fun n d x =>
+    distMap RS ((((List.range N).map fun n => (List.range D).map fun d => meanOpt RS (columnVals b true n d)).getD n []).getD d none)
+      ((((List.range N).map fun n => (List.range D).map fun d => stdOpt RS (columnVals b true n d)).getD n []).getD d none) x
+  have hres : (normalizeDistribution RS isZero true b).1 = mapCoordsN isZero g b.fps b := by
+    unfold normalizeDistribution mapCoordsN
+    simp only [hD, hNp]
+    rfl
+  have hg : ∀ n, n < N → g n d = fun x => RS.div (RS.sub x μ) σ := by
+    intro n hn
+    funext x
+    simp only [g, getD_range_map' N n _ [] hn, getD_range_map' D d _ none hd, hcolN n, hμ, hσ, distMap]
+  rw [hres, columnVals_all_mapCoordsN h g b.fps d _ hg 0]
+  refine ⟨distribution_mean_zero _ μ σ hμ h0, distribution_std_one _ μ σ hμ hσ h0, ?_, ?_⟩
+  · rw [mapCoordsN_eq h]
+  · rw [mapCoordsN_eq h]
+
 /-- **Postcondition of `normalize`**: confidences and missing pattern unchanged, mean midpoint of the reference points at the origin, mean reference distance
     equal to the requested scale. -/
 theorem normalize_post (h : BInv isZero F P N D b) (p1 p2 : Nat) (sf : ℝ) (hsf : 0 < sf) (b' : PBody ℝ) (center : List ℝ) (md : ℝ)
